@@ -125,7 +125,7 @@ func checkC20(c *Ctx) error {
 		}
 		id := idOf(i)
 		plans[id] = pl
-		units = append(units, &probe.Unit{ID: id, Cfg: conf, Files: gen.Split(r, conf, i%3), Ops: ops})
+		units = append(units, &probe.Unit{ID: id, Cfg: conf, Files: gen.Split(r, conf, i%4), Ops: ops})
 	}
 	probe.RaceReports = nil
 	if err := runUnits(c, lab, units, true); err != nil {
